@@ -38,6 +38,31 @@ def sh(cmd, **kw):
 def load_props():
     return json.load(open(os.path.join(HERE, "props.json")))
 
+BASELINE = os.path.join(VERIF, "baseline", "fn_hashes.json")
+def load_baseline():
+    if os.path.exists(BASELINE):
+        return json.load(open(BASELINE))
+    return {}
+
+def rebaseline():
+    """record, on the unchanged tree, the hash of every extracted function / constant per unit (used to tell a changed
+    function from solver instability: an UNCHANGED function whose obligations fail is never reported as a violation)"""
+    props = load_props()
+    units = sorted(set(u for c in props.values() for u in c.get("units", [])))
+    out = {}
+    for unit in units:
+        tpl = os.path.join(VERIF, "specs", unit + ".rs")
+        gen, mp = os.path.join(WORK, unit + "_bl.rs"), os.path.join(WORK, unit + "_bl.map.json")
+        r = sh(["python3", os.path.join(HERE, "vx.py"), tpl, REPO, gen, mp])
+        if r.returncode != 0:
+            print("rebaseline: unit", unit, "failed:", r.stdout); continue
+        m = json.load(open(mp))
+        out[unit] = {"fns": {fd["fn"]: fd["sha256"] for fd in m["functions"]},
+                     "consts": hashlib.sha256(json.dumps(sorted((x["fn"], x.get("after", "")) for x in m["rewrites"] if x.get("fn", "").startswith("const "))).encode()).hexdigest()}
+    os.makedirs(os.path.dirname(BASELINE), exist_ok=True)
+    json.dump(out, open(BASELINE, "w"), indent=1, sort_keys=True)
+    print("baseline written for units:", ", ".join(out))
+
 def load_known():
     p = os.path.join(VERIF, "known-findings.json")
     if os.path.exists(p):
@@ -310,6 +335,8 @@ def slug(s):
 def main():
     if len(sys.argv) < 2:
         print("usage: check.py <Cxx> [quick|thorough]"); sys.exit(2)
+    if sys.argv[1] == "--rebaseline":
+        rebaseline(); sys.exit(0)
     if sys.argv[1] == "--replay":
         d = json.load(open(sys.argv[2]))
         print(json.dumps({k: v for k, v in d.items() if k != "witness"}, indent=1)[:6000])
@@ -362,6 +389,38 @@ def main():
             continue
         for fnn in r.get("rlimit_fns", []):
             undecided.append(f"unit {unit}: resource limit exceeded while checking {fnn} (undecided for that function)")
+        # --- instability guard: a function whose extracted text (and the extracted constants) is byte-identical to the
+        # baseline has byte-identical obligations; if they fail now, that is solver instability, never a violation.
+        bl = load_baseline().get(unit, {})
+        cur_consts = hashlib.sha256(json.dumps(sorted((x["fn"], x.get("after", "")) for x in r["map"]["rewrites"] if x.get("fn", "").startswith("const "))).encode()).hexdigest()
+        cur_hash = {fd["fn"]: fd["sha256"] for fd in r["map"]["functions"]}
+        def is_known_any(f):
+            return any(match_known(known, k.get("property"), f) for k in known.get("findings", []) if k.get("status") == "known")
+        def unchanged(fn):
+            if fn is None: return False
+            if fn.startswith("proof:"): return True          # lemmas do not depend on /repo at all
+            return bool(bl) and bl.get("consts") == cur_consts and bl.get("fns", {}).get(fn) == cur_hash.get(fn)
+        if r["status"] == "fail" and any(unchanged(f["fn"]) and not is_known_any(f) for f in r["fails"]):
+            # retry with other seeds: keep only failures that persist
+            persistent = None
+            for sd in (11, 23):
+                r2 = run_unit(unit, seed=sd, tag=f"_s{sd}")
+                if r2["status"] == "undecided":
+                    continue
+                keys2 = set((f["fn"], f["kind"], f.get("clause")) for f in r2.get("fails", []))
+                persistent = keys2 if persistent is None else (persistent & keys2)
+            stable, flaky = [], []
+            for f in r["fails"]:
+                if unchanged(f["fn"]) and not is_known_any(f):
+                    flaky.append(f)
+                else:
+                    stable.append(f)
+            for f in flaky:
+                undecided.append(f"unit {unit}: obligations of UNCHANGED function {f['fn']} fail ([{f['kind']}] {(f.get('clause') or '')[:80]}): solver instability, not a violation"
+                                 + ("" if persistent is None or (f['fn'], f['kind'], f.get('clause')) in persistent else " (passes with another seed)"))
+            r["fails"] = stable
+            if not stable:
+                r["status"] = "ok-with-instability"
         tplp = template_fn_props(unit)
         serves = r["map"]["serves"]
         for lh in r["map"].get("lost_hints", []):
